@@ -401,3 +401,14 @@ TASKS = list(STRATEGIES)
 
 def module(task):
     return getattr(mir_eval, task)
+
+
+def _nonempty(x):
+    if isinstance(x, dict):
+        return any(bool(v) for v in x.values())
+    return bool(x)
+
+
+def sides(case):
+    """-> (reference non-empty, estimate non-empty)"""
+    return _nonempty(case["ref"]), _nonempty(case["est"])
